@@ -72,7 +72,7 @@ def issuerOK (E : SignEnv) (signer : Option Cert) (t : Cert) (iss : String) : Pr
 theorem signWith_ok_iff (E : SignEnv) (signer : Option Cert) (kc : Nat) (t c : Cert) :
     signWith E signer kc t = .ok c ↔
       kc = t.curve ∧ ∃ iss, issuerOK E signer t iss ∧
-      ∃ v, validateVersion { t with issuer := iss, signature := [] } = some (.ok v) ∧
+      ∃ v, validateVersion (fromTBS t iss) = some (.ok v) ∧
       ∃ bytes sig0 sig, E.tbsBytes v = some bytes ∧ E.sign bytes = some sig0 ∧
         (if kc = curveP256 then E.normalize sig0 else some sig0) = some sig ∧ sig ≠ [] ∧
         c = { v with signature := sig } := by
@@ -87,7 +87,7 @@ theorem signWith_ok_iff (E : SignEnv) (signer : Option Cert) (kc : Nat) (t c : C
       ((match r with
         | .error e => (Except.error e : Except SignErr Cert)
         | .ok iss =>
-          match validateVersion { t with issuer := iss, signature := [] } with
+          match validateVersion (fromTBS t iss) with
           | none => .error .unknownVersion
           | some (.error e) => .error (.invalid e)
           | some (.ok c) =>
@@ -101,7 +101,7 @@ theorem signWith_ok_iff (E : SignEnv) (signer : Option Cert) (kc : Nat) (t c : C
                 | none => .error .normalize
                 | some sig => if sig.length == 0 then .error .emptySignature else .ok { c with signature := sig }) = .ok c ↔
        ∃ iss, issuerOK E signer t iss ∧
-        ∃ v, validateVersion { t with issuer := iss, signature := [] } = some (.ok v) ∧
+        ∃ v, validateVersion (fromTBS t iss) = some (.ok v) ∧
         ∃ bytes sig0 sig, E.tbsBytes v = some bytes ∧ E.sign bytes = some sig0 ∧
           (if t.curve = curveP256 then E.normalize sig0 else some sig0) = some sig ∧ sig ≠ [] ∧
           c = { v with signature := sig }) := by
@@ -122,7 +122,7 @@ theorem signWith_ok_iff (E : SignEnv) (signer : Option Cert) (kc : Nat) (t c : C
       constructor
       · intro h
         refine ⟨iss, hiss, ?_⟩
-        cases hv : validateVersion { t with issuer := iss, signature := [] } with
+        cases hv : validateVersion (fromTBS t iss) with
         | none => rw [hv] at h; cases h
         | some rv =>
           rw [hv] at h
